@@ -338,6 +338,7 @@ class CParser:
             if decls[0]["decl"] is None:
                 if (
                     len(spec["type"]) < 2
+                    or not isinstance(spec["type"][-1], c_ast.IdentifierType)
                     or len(spec["type"][-1].names) != 1
                     or not self._is_type_in_scope(spec["type"][-1].names[0])
                 ):
@@ -1438,6 +1439,7 @@ class CParser:
     ) -> c_ast.Node:
         if (
             len(spec["type"]) > 1
+            and isinstance(spec["type"][-1], c_ast.IdentifierType)
             and len(spec["type"][-1].names) == 1
             and self._is_type_in_scope(spec["type"][-1].names[0])
         ):
